@@ -17,6 +17,9 @@
 #include <vector>
 #include <sstream>
 #include <fstream>
+#include <unistd.h>
+#include <sys/wait.h>
+#include <signal.h>
 
 namespace vh {
 
@@ -215,6 +218,44 @@ struct Prop {
     std::function<bool(const KV &, std::vector<std::string> &)> classify;
 };
 
+// Run check(c) in a forked child so that a sanitizer abort or a signal becomes
+// an ordinary, shrinkable failure (enabled with VERIF_FORK=1).
+static inline std::string forked_check(const Prop &p, const KV &c) {
+    int fds[2], efds[2];
+    if (pipe(fds) != 0 || pipe(efds) != 0) return "pipe() failed";
+    fflush(stdout); fflush(stderr);
+    pid_t pid = fork();
+    if (pid < 0) return "fork() failed";
+    if (pid == 0) {
+        close(fds[0]); close(efds[0]);
+        dup2(efds[1], 2);
+        std::string err = p.check(c);
+        if (!err.empty()) { ssize_t w = write(fds[1], err.data(), err.size()); (void)w; }
+        _exit(err.empty() ? 0 : 3);
+    }
+    close(fds[1]); close(efds[1]);
+    std::string err, errout;
+    char buf[4096];
+    ssize_t n;
+    while ((n = read(fds[0], buf, sizeof buf)) > 0) err.append(buf, (size_t)n);
+    while ((n = read(efds[0], buf, sizeof buf)) > 0) { if (errout.size() < 200000) errout.append(buf, (size_t)n); }
+    close(fds[0]); close(efds[0]);
+    int status = 0;
+    waitpid(pid, &status, 0);
+    if (WIFEXITED(status) && WEXITSTATUS(status) == 0) return "";
+    if (WIFEXITED(status) && WEXITSTATUS(status) == 3) return err.empty() ? "check failed" : err;
+    // died: summarise the sanitizer report
+    std::string what = WIFSIGNALED(status) ? "killed by signal " + std::to_string(WTERMSIG(status)) : "exited with status " + std::to_string(WEXITSTATUS(status));
+    std::string summary;
+    size_t sp = errout.find("SUMMARY:");
+    if (sp != std::string::npos) summary = errout.substr(sp, errout.find('\n', sp) - sp);
+    else { size_t rp = errout.find("runtime error:"); if (rp != std::string::npos) { size_t b = errout.rfind('\n', rp); summary = errout.substr(b == std::string::npos ? 0 : b + 1, errout.find('\n', rp) - (b == std::string::npos ? 0 : b + 1)); } }
+    std::string frames;
+    size_t fp = errout.find("    #0 ");
+    if (fp != std::string::npos) { size_t e = fp; for (int i = 0; i < 4 && e != std::string::npos; ++i) e = errout.find('\n', e + 1); frames = errout.substr(fp, (e == std::string::npos ? errout.size() : e) - fp); }
+    return "CRASH: " + what + "; " + summary + " | " + frames;
+}
+
 static inline bool run_prop(const Prop &p) {
     Runner &r = runner();
     r.cur = &r.stats[p.name];
@@ -232,7 +273,8 @@ static inline bool run_prop(const Prop &p) {
             if (fresh && r.cur->samples.size() < 4 && (r.cur->nontrivial.size() % 53 == 1)) r.cur->samples.push_back(c);
         }
         for (auto &t : tags) ++r.cur->classes[t];
-        std::string err = p.check(c);
+        static const bool fork_mode = getenv("VERIF_FORK") != nullptr;
+        std::string err = fork_mode ? forked_check(p, c) : p.check(c);
         if (!err.empty()) {
             r.last = Failure{p.name, c, err};
             r.have_last = true;
@@ -273,7 +315,7 @@ static inline int harness_main(int argc, char **argv, const std::vector<Prop> &p
         if (!parse_flat_object(s, pos, c)) { fprintf(stderr, "bad case object\n"); return 2; }
         for (auto &p : props) {
             if (p.name != pname) continue;
-            std::string err = p.check(c);
+            std::string err = getenv("VERIF_FORK") ? forked_check(p, c) : p.check(c);
             if (err.empty()) { printf("REPLAY-PASS %s\n", pname.c_str()); return 0; }
             printf("REPLAY-FAIL %s: %s\n", pname.c_str(), err.c_str());
             return 1;
